@@ -9,7 +9,9 @@
    url_tail / email_tail are Model/C17Tails.v (run_lex_full / run_doc_full); "X" = a non-ASCII character without class bits.
      F cps                 -> C17Float.run_f64_digits: the correctly rounded binary64 value of the digit string and
                               correct_suffix_for_f64 on it: "<16 hex digits of the bits> <suffix code 0..4>"
-     G neg m e | G nan | G inf neg -> C17Float.run_f64_parts / run_f64_special on the datum (-1)^neg * m * 2^e *)
+     G neg m e | G nan | G inf neg -> C17Float.run_f64_parts / run_f64_special on the datum (-1)^neg * m * 2^e
+     M pre,digits,sfx;pre,digits,sfx;... | post | cp:bits ... -> C17Texts.run_multi (the class mctx_ok of C17_lint_list and
+                              the lints the theorem promises, mexpected): "1 # s e sug;..." inside the class, "0" outside *)
 exception Outside
 let ascii_digit c = c >= 48 && c <= 57
 let ascii_alpha c = (c >= 65 && c <= 90) || (c >= 97 && c <= 122)
@@ -48,6 +50,21 @@ let () =
        | ["nan"] -> print_endline (f64_str (run_f64_special (nat_of_int 0)))
        | ["inf"; s] -> print_endline (f64_str (run_f64_special (nat_of_int (if s = "1" then 2 else 1))))
        | [s; m; e] -> print_endline (f64_str (run_f64_parts (s = "1") (n_of_int (int_of_string m)) (z_of_int (int_of_string e))))
+       | _ -> print_endline "?")
+    else if String.length l >= 2 && l.[0] = 'M' then
+      (match split_bar (String.sub l 1 (String.length l - 1)) with
+       | [is; post; c] ->
+           (try
+             let u = mk_uni (parse_tbl c) in
+             let inst_of w = match String.split_on_char ',' w with
+               | [p; d; s] -> (match text_of_line s with
+                               | [a; b] -> { i_pre = text_of_line p; i_digits = text_of_line d; i_a = a; i_b = b }
+                               | _ -> failwith "suffix")
+               | _ -> failwith "inst" in
+             let insts = List.filter_map (fun w -> if String.trim w = "" then None else Some (inst_of w)) (String.split_on_char ';' is) in
+             let (ok, lints) = run_multi u insts (text_of_line post) in
+             print_endline (if ok then String.trim ("1 # " ^ String.concat ";" (List.map lint_str lints)) else "0")
+           with Outside -> print_endline "X" | Failure _ -> print_endline "?")
        | _ -> print_endline "?")
     else
     if String.length l < 2 then print_endline "?" else
